@@ -27,6 +27,16 @@ var replayDir = "/verif/replay"
 
 var replayTemplates = []*replayTemplate{
 	{
+		name: "req_send_cancels_recv.go.tmpl",
+		match: func(o *Obligation) bool {
+			return strings.HasPrefix(o.Name, "site:(*protocol/req.context).RecvMsg:before:call:Broadcast#1")
+		},
+		run: func(g *Gen, o *Obligation, model map[string]string) (bool, string) {
+			// the history is fixed by the obligation: Send, pending Recv, Send, reply, Recv
+			return runReplay("protocol/req", "req_send_cancels_recv.go.tmpl", map[string]string{}, "TestZZReplayReqCancel")
+		},
+	},
+	{
 		name: "ttl_words.go.tmpl",
 		match: func(o *Obligation) bool {
 			return regexp.MustCompile(`^site:\(\*protocol/(rep|xrep|respondent|xrespondent)\.pipe\)\.receiver:`).MatchString(o.Name)
